@@ -142,7 +142,7 @@ func init() {
 func c16CLI(c *core.Case, o *core.Outcome) {
 	var pp map[string]int
 	c.Params(&pp)
-	labels := map[string]string{"team": "payments", "env": " staging", "Build_42": "ünïcödé ✓"}
+	labels := map[string]string{"team": "payments", "env": " staging", "Build_42": "ünïcödé ✓", "region": ""} // an empty value is a value
 	if pp["nogw"] == 0 {
 		gw := engine.NewGateway(200)
 		defer gw.Close()
@@ -162,7 +162,12 @@ func c16CLI(c *core.Case, o *core.Outcome) {
 	var n atomic.Int64
 	inst.Add("cliScenario", func(t *f1testing.T) f1testing.RunFn {
 		return func(t *f1testing.T) {
-			if k := n.Add(1); pp["fail"] == 1 && k%2 == 0 {
+			k := n.Add(1)
+			if k%3 == 0 {
+				// a stage of the program's own: its timings are not iterations, whatever it is called
+				t.Time([]string{"Iteration", "ITERATION", "iteration "}[k/3%3], func() {})
+			}
+			if pp["fail"] == 1 && k%2 == 0 {
 				t.Fail()
 			}
 		}
